@@ -339,21 +339,44 @@ def run(ctx):
     pl = smp.methods.get('_parse_legacy_circuit_json')
     if gj is None or pl is None:
         raise AnalysisError('AQTSampler JSON writer/reader vanished')
-    tuples = [t for t in ast.walk(gj) if isinstance(t, ast.Tuple) and t.elts and isinstance(t.elts[0], ast.Name) and t.elts[0].id == 'op_str']
-    lay = {len(t.elts): [ast.unparse(e) for e in t.elts] for t in tuples}
-    ok = 4 in lay and 'exponent' in lay[4][1] and 'phase_exponent' in lay[4][2] and lay[4][3] == 'qubit_idx' and 'phase_exponent' not in lay[4][1]
-    ctx.ob('C17.d', 'AQTSampler._generate_json:R-layout', ok, '' if ok else f'R is written as {lay.get(4)} (expected op, exponent, phase_exponent, qubits)', asm.rel, gj.lineno)
-    ok = 3 in lay and 'exponent' in lay[3][1] and lay[3][2] == 'qubit_idx'
-    ctx.ob('C17.d', 'AQTSampler._generate_json:generic-layout', ok, '' if ok else f'Z/MS are written as {lay.get(3)} (expected op, exponent, qubits)', asm.rel, gj.lineno)
-    ok = any(isinstance(n, ast.Compare) and ast.unparse(n).replace('"', "'") == "op_str == 'R'" for n in ast.walk(gj))
+    # locals, by what they are bound to (their names do not matter)
+    OS = {st.targets[0].id for st in ast.walk(gj) if isinstance(st, ast.Assign) and isinstance(st.targets[0], ast.Name)
+          and isinstance(st.value, ast.Call) and call_name(st.value) == 'get_op_string'}
+    QI = {st.targets[0].id for st in ast.walk(gj) if isinstance(st, ast.Assign) and isinstance(st.targets[0], ast.Name)
+          and isinstance(st.value, (ast.ListComp, ast.GeneratorExp)) and isinstance(st.value.elt, ast.Attribute) and st.value.elt.attr == 'x'}
+    if not OS or not QI:
+        raise AnalysisError('AQTSampler._generate_json: op string / qubit index locals vanished')
+    tuples = [t for t in ast.walk(gj) if isinstance(t, ast.Tuple) and t.elts and isinstance(t.elts[0], ast.Name) and t.elts[0].id in OS]
+    lay = {len(t.elts): (t, [ast.unparse(e) for e in t.elts]) for t in tuples}
+
+    def is_qi(e):
+        return isinstance(e, ast.Name) and e.id in QI
+    ok = 4 in lay and 'exponent' in lay[4][1][1] and 'phase_exponent' in lay[4][1][2] and is_qi(lay[4][0].elts[3]) and 'phase_exponent' not in lay[4][1][1]
+    ctx.ob('C17.d', 'AQTSampler._generate_json:R-layout', ok, '' if ok else f'R is written as {lay.get(4, (None, None))[1]} (expected op, exponent, phase_exponent, qubits)', asm.rel, gj.lineno)
+    ok = 3 in lay and 'exponent' in lay[3][1][1] and is_qi(lay[3][0].elts[2])
+    ctx.ob('C17.d', 'AQTSampler._generate_json:generic-layout', ok, '' if ok else f'Z/MS are written as {lay.get(3, (None, None))[1]} (expected op, exponent, qubits)', asm.rel, gj.lineno)
+    ok = any(isinstance(n, ast.Compare) and len(n.ops) == 1 and isinstance(n.ops[0], ast.Eq) and isinstance(n.left, ast.Name) and n.left.id in OS
+             and isinstance(n.comparators[0], ast.Constant) and n.comparators[0].value == 'R' for n in ast.walk(gj))
     ctx.ob('C17.d', 'AQTSampler._generate_json:R-branch', ok, '' if ok else 'the four-field layout is not chosen exactly for R', asm.rel, gj.lineno)
-    # legacy reader
+    # legacy reader: the chain dispatches on <item>[0]; <item> is whatever the loop variable over the parsed JSON is called
     WANTR = {'Z': ('GateRZ', {'qubit': 'legacy_op[2][0]', 'phi': 'legacy_op[1]'}), 'R': ('GateR', {'qubit': 'legacy_op[3][0]', 'theta': 'legacy_op[1]', 'phi': 'legacy_op[2]'}),
              'MS': ('GateRXX', {'qubits': 'legacy_op[2]', 'theta': 'legacy_op[1]'})}
-    chain = [n for n in ast.walk(pl) if isinstance(n, ast.If) and 'legacy_op[0]' in ast.unparse(n.test)]
+
+    def item_of(test):
+        if isinstance(test, ast.Compare) and isinstance(test.left, ast.Subscript) and isinstance(test.left.value, ast.Name) \
+                and isinstance(test.left.slice, ast.Constant) and test.left.slice.value == 0 and 'OperationString.' in ast.unparse(test):
+            return test.left.value.id
+        return None
+    chain = [n for n in ast.walk(pl) if isinstance(n, ast.If) and item_of(n.test)]
     rd = {}
     if chain:
         top = min(chain, key=lambda n: n.lineno)
+        ITEM = item_of(top.test)
+
+        class _Ren(ast.NodeTransformer):
+            def visit_Name(self, node):
+                return ast.copy_location(ast.Name(id='legacy_op', ctx=node.ctx), node) if node.id == ITEM else node
+        import copy as _copy
         for test, body in chains.if_chain(top):
             if test is None:
                 ok = any(isinstance(s_, ast.Raise) for s_ in body)
@@ -363,7 +386,7 @@ def run(ctx):
             for s_ in body:
                 for c in ast.walk(s_):
                     if isinstance(c, ast.Call) and call_name(c).startswith(('Gate', 'Measure')):
-                        rd[vals.get(member)] = (call_name(c), {k.arg: ast.unparse(k.value) for k in c.keywords if k.arg != 'operation'})
+                        rd[vals.get(member)] = (call_name(c), {k.arg: ast.unparse(_Ren().visit(_copy.deepcopy(k.value))) for k in c.keywords if k.arg != 'operation'})
     for k, (cn, kw) in WANTR.items():
         g = rd.get(k)
         ok = g is not None and g[0] == cn and g[1] == kw
